@@ -92,10 +92,7 @@ func newResult(t reflect.Type, opts resultOptions) (result, error) {
 			var asTypes []reflect.Type
 			for _, as := range opts.As {
 				ifaceType := reflect.TypeOf(as).Elem()
-				if ifaceType == t {
-					continue
-				}
-				if !t.Implements(ifaceType) {
+				if ifaceType != t && !t.Implements(ifaceType) {
 					return nil, newErrInvalidInput(
 						fmt.Sprintf("invalid dig.As: %v does not implement %v", t, ifaceType), nil)
 				}
@@ -303,14 +300,10 @@ func newResultSingle(t reflect.Type, opts resultOptions) (resultSingle, error) {
 	var asTypes []reflect.Type
 
 	for _, as := range opts.As {
+		// The type of the result itself may be listed like any other
+		// interface: it is one of the keys the value is provided under.
 		ifaceType := reflect.TypeOf(as).Elem()
-		if ifaceType == t {
-			// Special case:
-			//   c.Provide(func() io.Reader, As(new(io.Reader)))
-			// Ignore instead of erroring out.
-			continue
-		}
-		if !t.Implements(ifaceType) {
+		if ifaceType != t && !t.Implements(ifaceType) {
 			return r, newErrInvalidInput(
 				fmt.Sprintf("invalid dig.As: %v does not implement %v", t, ifaceType), nil)
 		}
